@@ -413,6 +413,14 @@ pub fn apply(img: &mut Vec<u8>, p: &Parsed, c: &Corr) -> Option<String> {
                 put(img, off, &h.to_le_bytes());
                 return Some(format!("mini chain {} tail -> head", h));
             }
+            if role % 10 == 5 {
+                // DIFAT chain: the last DIFAT sector's next cell -> some DIFAT sector
+                let last = *p.difat_sectors.last()?;
+                let to = p.difat_sectors[pick(c.sel, p.difat_sectors.len())];
+                let off = p.sector_off(last) + p.sector_len - 4;
+                put(img, off, &to.to_le_bytes());
+                return Some(format!("DIFAT chain tail {} -> {}", last, to));
+            }
             let chains: Vec<Vec<u32>> = match role % 5 {
                 1 => vec![p.dir_chain.clone()],
                 2 => vec![p.minifat_chain.clone()],
